@@ -24,6 +24,11 @@ Two further families widen the quantifier of leg 3 (gen/arithforms.py):
                  x * 0, x - x ...) that drops an evaluation shows up here
                  (key `effect-differs:<op>:<types>:<forms>`); the variable version is also
                  compared with the expected trace/value (Never's evaluation order + pyref).
+  string operands  s + s (folded by constred.c), s + s + s, s + char, char + s, s + number,
+                 number + s, == != on strings, length(s), s[i]: every operand literal or in a
+                 variable, all combinations, against the all-variable version (key
+                 `string-fold-differs:<op>:<operand kinds>:<forms>`); values: empty, 1 character,
+                 > 255 characters, escapes, embedded quotes, numbers at the formatting boundaries
   enumdecl       sets of enum declarations mixing plain, valued and record-style enumerators,
                  default numbering, backward AND forward references (also across enums), every
                  int operator; every enumerator is read back (held in a variable; written as
@@ -430,6 +435,77 @@ def enumdecl_family(ctx, Tp, Ta, work, n_sets, counts, nontrivial, viol_seen):
                 {o: " ".join(v) for o, v in table.items()}}
 
 
+def string_family(ctx, Tp, Ta, work, reps, counts, nontrivial, viol_seen):
+    """string-valued / string-consuming operations (s + s folded by front/constred.c; s + char,
+    s + number, == !=, length, index evaluated by the VM) with every operand literal or in a
+    variable: every (left form, right form) must give the outcome of the all-variable version;
+    the all-variable version is also compared with a Python reference"""
+    import itertools
+    rng = ctx.rng
+    cases = []
+    for obj in load_corpus():
+        if obj.get("kind") == "string":
+            cases.append({"op": obj["op"], "operands": [tuple(o) for o in obj["operands"]]})
+    cases += af.gen_string_cases(rng, reps)
+    progs, meta = [], []
+    for ci, case in enumerate(cases):
+        arity = len(case["operands"])
+        for forms in itertools.product(("lit", "var"), repeat=arity):
+            pid = "g%04d.%s" % (ci, "-".join(forms))
+            src = af.string_program(case, forms)
+            progs.append((pid, "", src))
+            meta.append((pid, ci, forms, src))
+    rr = al.run_batch(Tp["nevrun"], progs, work, "c10-strings")
+    rr_asan = al.run_batch(Ta["nevrun"], [pr for i, pr in enumerate(progs) if i % 5 == 0], work, "c10a-strings")
+    dist = collections.Counter()
+    allvar = {}
+    for pid, ci, forms, src in meta:
+        if all(f == "var" for f in forms):
+            allvar[ci] = (af.string_outcome(rr.get(pid)), src)
+    for pid, ci, forms, src in meta:
+        case = cases[ci]
+        kinds = af.string_operand_kinds(case)
+        fname = "-".join(forms)
+        dist[(case["op"], kinds, fname)] += 1
+        counts["evaluations"] += 1
+        counts["string-operand-cases"] += 1
+        got = af.string_outcome(rr.get(pid))
+        var, vsrc = allvar[ci]
+        nontrivial.add(("string", case["op"], kinds, fname, got[1][0], len(got[0]) > 2))
+        obj = {"operation": case["op"], "operand_kinds": kinds, "operand_forms": fname, "program": src,
+               "outcome": got, "variable_program": vsrc, "variable_outcome": var,
+               "operands": [list(map(str, o[1:])) for o in case["operands"]]}
+        if pid in rr_asan:
+            ra = af.string_outcome(rr_asan.get(pid))
+            if ra[1] != got[1] or (ra[1][0] == "val" and ra[0] != got[0]):
+                k2 = "sanitizer-differs:string:%s:%s" % (case["op"], kinds)
+                viol_seen[k2] = viol_seen.get(k2, 0) + 1
+                if viol_seen[k2] == 1:
+                    ctx.violation(k2, "ASan/UBSan build behaves differently from the plain build", dict(obj, asan=ra))
+        if all(f == "var" for f in forms):
+            ref = af.string_reference(case)
+            if ref is not None and ref != got:
+                ctx.correspondence_broken("vm-vs-string-reference", dict(obj, reference=ref))
+            continue
+        if got == var:
+            counts["leg3-agree"] += 1
+            continue
+        if got[1][0] == "crash":
+            k2 = "string-crash:%s:%s:%s" % (case["op"], kinds, fname)
+            what = "the compiler / VM crashes (%s) with literal operands" % got[1][1]
+        else:
+            k2 = "string-fold-differs:%s:%s:%s" % (case["op"], kinds, fname)
+            what = "literal operands and variables holding the same values give different outcomes"
+        viol_seen[k2] = viol_seen.get(k2, 0) + 1
+        if viol_seen[k2] == 1:
+            ctx.violation(k2, "%s on (%s) with operands in the forms %s: %s" % (case["op"], kinds, fname, what), obj)
+    table = collections.OrderedDict()
+    for (op, kinds, fname), n in sorted(dist.items()):
+        table.setdefault(op, collections.OrderedDict()).setdefault(kinds, []).append("%s:%d" % (fname, n))
+    return {"cases": len(cases), "programs": len(progs),
+            "operation -> operand kinds -> forms:count": {op: {k: " ".join(v) for k, v in ks.items()} for op, ks in table.items()}}
+
+
 def run(ctx):
     quick = ctx.tier == "quick"
     work = os.path.join(ctx.outdir, "work")
@@ -777,6 +853,9 @@ def run(ctx):
         if viol_seen[k2] == 1:
             ctx.violation(k2, "%s with operands in the forms %s: %s" % (key, fname, what), case)
 
+    # ---- string operands: literal vs variable in every position --------------------------------
+    strdist = string_family(ctx, Tp, Ta, work, 12 if quick else 48, counts, nontrivial, viol_seen)
+
     # ---- enum declaration sets: index assignment (forward / backward / cross references) ----
     edist = enumdecl_family(ctx, Tp, Ta, work, 400 if quick else 3000, counts, nontrivial, viol_seen)
 
@@ -806,6 +885,7 @@ def run(ctx):
         "cases per form": {f: sum(n for (k, ff), n in formdist.items() if ff == f)
                            for f in sorted({ff for (k, ff) in formdist})}}
     ctx.coverage["enumdecl_distribution"] = edist
+    ctx.coverage["string_operands_operation_x_operandkinds_x_forms"] = strdist
     ctx.notes["counts"] = dict(counts)
     ctx.notes["violation_hits"] = viol_seen
     ctx.notes["excluded"] = ("C undefined behaviour: out-of-range float->int conversions, shift counts >= width "
